@@ -60,7 +60,7 @@ func init() {
 			Technique: "stateless model checking of the real commit pipeline (controlled scheduler, preemption-bounded DFS)",
 			Rule:      "every schedule of the harness threads over the enabled points with at most <bound> preemptions; distinct = distinct (commit-ts assignment, reader read-ts) outcomes"}
 		if q {
-			p.Stages = []Stage{sched("c03a", 0, 1, 20, nil), sched("c03a", 1, 16, 25, nil), sched("c03a", 2, 16, 30, nil), sched("c01flush", 2, 16, 20, prm("variant", "flush")),
+			p.Stages = []Stage{sched("c03a", 0, 1, 20, nil), sched("c03a", 1, 16, 25, nil), sched("c03a", 2, 16, 30, nil), sched("c03a", 3, 16, 30, nil), sched("c01flush", 2, 16, 20, prm("variant", "flush")),
 				bfs("lsm", 5, 40, prm("oracle", "c12", "mode", "normal", "keys", 2, "multi", true, "l0_tables", 1, "ops", "P Sa Da F C0 C1 O X"))}
 		} else {
 			p.Stages = []Stage{sched("c03a", 0, 1, 30, nil), sched("c03a", 1, 16, 60, nil), sched("c03a", 2, 16, 300, nil), sched("c03a", 3, 16, 300, nil),
@@ -110,7 +110,7 @@ func init() {
 	stateRule := "BFS states = canonical LSM shapes (per level: tables with their (key, version, meta) lists and age class; memtable; watermark position); transitions = operations applied to the real DB; every state is non-trivial and distinct by construction"
 	planTable["C13"] = lsmPlan("Same state space as C12 with discard-earlier-versions entries added and NumVersionsToKeep 1, 2 and unlimited; after every transition the AllVersions dump must contain every version the retention rule promises (computed by a reference model from the write history and the current watermark) and nothing that was never written.",
 		stateRule,
-		[]Stage{bfs("lsm", 4, 40, prm("oracle", "c13", "nvk", 1, "keys", 1)), bfs("lsm", 4, 40, prm("oracle", "c13", "nvk", 2, "keys", 1)),
+		[]Stage{bfs("lsm", 5, 40, prm("oracle", "c13", "nvk", 1, "keys", 1)), bfs("lsm", 5, 40, prm("oracle", "c13", "nvk", 2, "keys", 1)),
 			// seeds with versions on both sides of the watermark (the version budget must count only versions at or below it)
 			bfs("lsm", 3, 40, prm("oracle", "c13", "nvk", 2, "keys", 1), seq("Sa Sa T"), seq("Sa Sa Sa T Sa"), seq("Sa F Sa F T"), seq("Sa Ea Sa T Sa")),
 			// the watermark a compaction uses must be the real one even while a value-log GC rewrite is in flight
@@ -129,7 +129,7 @@ func init() {
 			bfs("lsm", 4, 600, prm("oracle", "c29", "mode", "normal", "keyset", "drop", "keys", 6, "drops", true, "reopen", true, "snapshots", false, "l0_tables", 1, "value_threshold", 1024, "big_size", 400, "ops", "Sp1a Sq Dp1a F C0 C1 Yp1 Yp1,q Yp1a,qq Yp1a,p1 Yp V R"), seq("Bp1a Bp1b Bp2a Bp2b Bq Bqq F C0"))})
 	planTable["C36"] = lsmPlan("Managed-mode histories with caller-chosen, non-monotonic commit timestamps (CommitAt and per-entry SetEntryAt through a managed write batch), deletes at chosen timestamps, discard-timestamp moves, flushes and compactions; after every transition reads at every timestamp >= the discard timestamp equal the reference model and Item.Version equals the caller's timestamp.",
 		stateRule,
-		[]Stage{bfs("lsm", 4, 60, prm("oracle", "c36", "keys", 1, "managed_ts", true))},
+		[]Stage{bfs("lsm", 5, 60, prm("oracle", "c36", "keys", 1, "managed_ts", true))},
 		[]Stage{bfs("lsm", 6, 600, prm("oracle", "c36", "keys", 1, "managed_ts", true))})
 
 	enumPlan := func(level, text, note, rule string, quick, thorough []Stage) func(q bool) *Plan {
@@ -260,6 +260,7 @@ func init() {
 				sched("c02pair", 2, 16, 40, prm("cases", 78)),
 				sched("c02triple", 2, 12, 40, prm("cases", 12)),
 				en("c02managed", 4, 30, nil),
+				sched("c02pair", 3, 16, 40, prm("cases", 78)), // budgeted: reported as capped if it does not finish
 			}
 		} else {
 			p.Stages = []Stage{
@@ -293,11 +294,12 @@ func init() {
 
 	planTable["C07"] = lsmPlan("Every state of the managed- and normal-mode operation-sequence space (writes, deletes, value-log values, flushes, compactions, discard-timestamp moves) is closed and re-opened read-write and, separately, read-only: the dump of ALL retained versions (including internal keys) must be identical before Close and after Open, reads at every timestamp >= the discard timestamp equal the model afterwards, and a read-only open + full read + close leaves every file byte-identical (name, size, content hash). Variants with CompactL0OnClose and different compaction settings compare visible reads.",
 		stateRule,
-		[]Stage{bfs("lsm", 4, 50, prm("oracle", "c12", "keys", 2, "reopen", true, "readonly", true, "big", true, "ops", "Sa Ba Da F C0 T R RO")), bfs("lsm", 4, 40, prm("oracle", "c12", "mode", "normal", "keys", 2, "reopen", true, "readonly", true, "ops", "Sa Sb Da F C0 R RO"))},
+		[]Stage{bfs("lsm", 5, 50, prm("oracle", "c12", "keys", 2, "reopen", true, "readonly", true, "big", true, "ops", "Sa Ba Da F C0 T R RO")), bfs("lsm", 5, 40, prm("oracle", "c12", "mode", "normal", "keys", 2, "reopen", true, "readonly", true, "ops", "Sa Sb Da F C0 R RO")),
+			bfs("lsm", 3, 30, prm("oracle", "c12", "keys", 2, "reopen", true, "closecompact", true, "ops", "Sa Sb Da F C0 T R CX"))},
 		[]Stage{bfs("lsm", 6, 900, prm("oracle", "c12", "keys", 2, "reopen", true, "readonly", true, "big", true, "ops", "Sa Sb Ba Da F C0 C1 T R RO")), bfs("lsm", 6, 600, prm("oracle", "c12", "mode", "normal", "keys", 2, "reopen", true, "readonly", true, "ops", "Sa Sb Da F C0 C1 R RO")), bfs("lsm", 5, 600, prm("oracle", "c12", "keys", 2, "reopen", true, "closecompact", true, "ops", "Sa Sb Da F C0 T R CX"))})
 	planTable["C37"] = lsmPlan("The managed- and normal-mode operation-sequence spaces of C12/C01 are executed on an InMemory database against the SAME reference model that the on-disk runs are checked against (so both modes agree on every read at every step); after every transition the process must hold no regular file open (scan of /proc/self/fd) and its scratch directory must still be empty.",
 		stateRule,
-		[]Stage{bfs("lsm", 4, 40, prm("oracle", "c12", "keys", 2, "inmemory", true, "nofiles", true)), bfs("lsm", 4, 40, prm("oracle", "c12", "mode", "normal", "keys", 2, "inmemory", true, "nofiles", true, "ops", "Sa Sb Da F C0 C1 O X"))},
+		[]Stage{bfs("lsm", 5, 40, prm("oracle", "c12", "keys", 2, "inmemory", true, "nofiles", true)), bfs("lsm", 5, 40, prm("oracle", "c12", "mode", "normal", "keys", 2, "inmemory", true, "nofiles", true, "ops", "Sa Sb Da F C0 C1 O X"))},
 		[]Stage{bfs("lsm", 6, 600, prm("oracle", "c12", "keys", 2, "inmemory", true, "nofiles", true)), bfs("lsm", 6, 600, prm("oracle", "c12", "mode", "normal", "keys", 2, "inmemory", true, "nofiles", true, "ops", "Sa Sb Da Db F C0 C1 O X A"))})
 	planTable["C33"] = lsmPlan("Normal-mode histories mixing expiring (TTL 5 s), non-expiring and deleted versions with flushes, compactions, value-log GC and virtual-clock advances (11 s): after every transition Get and forward/reverse iteration show an entry iff now < expiresAt (and, for every history of up to 3 (quick) / 5 (thorough) steps over {TTL set, set, delete, clock advance, flush, compaction}, so do a Stream run and a Backup + Load into a fresh database); an expired newest version hides older ones; a newer plain write is visible.",
 		stateRule,
@@ -314,7 +316,7 @@ func init() {
 			return Stage{Binary: "badger.fine", Scenario: "c22conc", Bound: bound, NShard: 16, BudgetS: budget, Params: prm("cases", 144)}
 		}
 		if q {
-			p.Stages = []Stage{en("c22seq", 16, 40, prm("len", 4)), fine(1, 30), fine(2, 60)}
+			p.Stages = []Stage{en("c22seq", 16, 40, prm("len", 4)), fine(1, 30), fine(2, 60), fine(3, 30)}
 		} else {
 			p.Stages = []Stage{en("c22seq", 16, 600, prm("len", 5)), fine(2, 600), fine(3, 1200)}
 		}
@@ -331,7 +333,7 @@ func init() {
 			return Stage{Binary: "badger.fine", Scenario: "c34wm", Bound: bound, NShard: 6, BudgetS: budget, Params: prm("cases", 6)}
 		}
 		if q {
-			p.Stages = []Stage{wm(1, 30), wm(2, 45), sched("c03a", 1, 16, 25, nil)}
+			p.Stages = []Stage{wm(1, 30), wm(2, 45), wm(3, 40), sched("c03a", 1, 16, 25, nil)}
 		} else {
 			p.Stages = []Stage{wm(2, 300), wm(3, 900), wm(4, 1200), sched("c03a", 2, 16, 600, nil)}
 		}
@@ -398,7 +400,7 @@ func init() {
 			Technique: "stateless model checking (controlled scheduler, preemption-bounded DFS); crash-point enumeration",
 			Rule:      "schedules up to the bound; distinct = distinct tuples of returned numbers"}
 		if q {
-			p.Stages = []Stage{sched("c30seq", 2, 16, 40, prm("objects", 2)), sched("c30seq", 1, 16, 30, prm("objects", 2, "release", true))}
+			p.Stages = []Stage{sched("c30seq", 2, 16, 40, prm("objects", 2)), sched("c30seq", 1, 16, 30, prm("objects", 2, "release", true)), sched("c30seq", 2, 16, 30, prm("objects", 2, "release", true)), sched("c30seq", 3, 16, 30, prm("objects", 2))}
 		} else {
 			p.Stages = []Stage{sched("c30seq", 3, 16, 600, prm("objects", 2)), sched("c30seq", 2, 16, 600, prm("objects", 3)), sched("c30seq", 2, 16, 600, prm("objects", 2, "release", true))}
 		}
@@ -417,7 +419,7 @@ func init() {
 			Technique: "bounded-exhaustive enumeration (trie) + stateless model checking (publisher under the controlled scheduler)",
 			Rule:      "patterns x keys; 4 subscriber cases x schedules up to the bound"}
 		if q {
-			p.Stages = []Stage{en("c32trie", 8, 40, nil), sched("c32pub", 2, 4, 40, prm("cases", 4))}
+			p.Stages = []Stage{en("c32trie", 8, 40, nil), sched("c32pub", 2, 4, 40, prm("cases", 4)), sched("c32pub", 3, 4, 30, prm("cases", 4))}
 		} else {
 			p.Stages = []Stage{en("c32trie", 16, 300, prm("stride", 1)), sched("c32pub", 3, 4, 600, prm("cases", 4))}
 		}
@@ -474,11 +476,11 @@ func init() {
 		[]Stage{en("c26sw", 16, 1500, prm("full", true))})
 
 	planTable["C27"] = enumPlan("exploration",
-		"All operation sequences of length <= 3 (quick) / 4 (thorough) over {Set, Delete} x {x,y} for NewWriteBatch (normal DB) and NewWriteBatchAt(6), and over {SetEntryAt, DeleteAt} x {x,y} x {ts 5,7} for NewManagedWriteBatch, with the batch's transaction limit set so that it splits after every 1, 2 or 3 entries (and not at all); after Flush every key is read (managed: at every timestamp 4..8) and must show the LAST call for that key (and version).",
+		"All operation sequences of length <= 4 (quick) / 5 (thorough) over {Set, Delete} x {x,y} for NewWriteBatch (normal DB) and NewWriteBatchAt(6), and over {SetEntryAt, DeleteAt} x {x,y} x {ts 5,7} for NewManagedWriteBatch, with the batch's transaction limit set so that it splits after every 1, 2 or 3 entries (and not at all); after Flush every key is read (managed: at every timestamp 4..8) and must show the LAST call for that key (and version).",
 		"Runs on an in-memory DB; the split is forced through the same count limit that production uses (maxBatchCount).",
 		"nested enumeration; distinct = distinct (mode, split, operation sequence)",
-		[]Stage{en("c27batch", 16, 60, prm("len", 3))},
-		[]Stage{en("c27batch", 16, 900, prm("len", 4))})
+		[]Stage{en("c27batch", 16, 60, prm("len", 4))},
+		[]Stage{en("c27batch", 16, 900, prm("len", 5))})
 
 	planTable["C28"] = enumPlan("exploration",
 		"Validation: empty/nil keys, reserved !badger! prefix (and near misses), key lengths 1 / 65000 / 65001, values at and over the value-log file size (disk) , banned and unbanned namespaces with NamespaceOffset 0 and 3 (keys shorter than, exactly at and beyond the namespace window), for Set and Delete, each placed between two valid writes of the same transaction: rejected writes leave the transaction usable and the good writes commit; accepted keys round-trip; banned keys are unreadable. Size accounting: for 1-3 entries, inline and pointer-sized, the last value size sweeping from 120 bytes below to 8 above maxBatchSize, with commit timestamps of 1, 3 and 19 digits (managed) and after 0 / 100 earlier commits (normal), plus the entry-count limit exactly: whenever every Set was accepted Commit must not return ErrTxnTooBig.",
